@@ -5,6 +5,7 @@ This class handles irregular working hours like "08:15 - 11:45, 13:15 - 16:30"
 for specific days of the week.
 """
 
+import copy
 from datetime import datetime
 from typing import TYPE_CHECKING, Any, ClassVar, Optional
 
@@ -63,6 +64,13 @@ class WorkingHours:
         # Start with empty hours - will be populated by set_hours()
         # If no hours are set, onShift will fall back to project default
         self._custom_hours_set = False
+
+    def __deepcopy__(self, memo: dict[int, Any]) -> "WorkingHours":
+        """Inherited copies get an hour table of their own but refer to the same project."""
+        clone = copy.copy(self)
+        clone._hours = {day: list(intervals) for day, intervals in self._hours.items()}
+        memo[id(self)] = clone
+        return clone
 
     def set_hours(self, days: list[str], ranges: list[tuple[str, str]]) -> None:
         """
